@@ -106,6 +106,8 @@ Qed.
 
 Lemma coeff_from_coeffs cs i : coeff (from_coeffs cs) i = nth i cs 0.
 Proof. reflexivity. Qed.
+Lemma coeff_from_function c i : coeff (from_function c) i = c i.
+Proof. reflexivity. Qed.
 
 (* a number is the one-coefficient list [n] *)
 Lemma coeff_const n i : coeff (from_coeffs [n]) i == if (i =? 0)%nat then n else 0.
@@ -119,8 +121,7 @@ Lemma coeff_gsub f g i : coeff (gsub f g) i == coeff f i - coeff g i.
 Proof. unfold gsub. cbn [coeff]. rewrite coeff_scale. ring. Qed.
 Lemma coeff_gsub_num f n i : coeff (gsub_num f n) i == coeff f i - (if (i =? 0)%nat then n else 0).
 Proof.
-  unfold gsub_num. cbn [coeff]. change (fun i0 => nth i0 [n * (-1 # 1)] 0) with (coeff (from_coeffs [n * (-1 # 1)])).
-  rewrite coeff_const. destruct (i =? 0)%nat; ring.
+  unfold gsub_num. cbn [coeff]. rewrite coeff_const. destruct (i =? 0)%nat; ring.
 Qed.
 Lemma coeff_gmul f g i : coeff (gmul f g) i == cauchy (coeff f) (coeff g) i.
 Proof. apply coeff_Prod. Qed.
